@@ -14,7 +14,10 @@ open Dulwich Dulwich.RefsFS
 /-! ## 0. The model was written against this code
 
 The methods the model transcribes still have the call/compare skeleton the model was written against: any
-reordering, dropped re-read, changed comparison or changed argument of the swap breaks one of these. -/
+reordering, dropped re-read, changed comparison or changed argument of the swap breaks one of these.  For the
+four places with a proposed repair (order of the two removals in `remove_if_equals`, loose files removed after
+the rename in `add_packed_refs`, the name `add_if_new` re-checks, the number of head reads in `WorkTree.commit`) the repaired skeleton is admitted as well, together
+with the value the generated flag must then have — the model follows the flag. -/
 
 theorem skeleton_readers :
     Gen.RefsFS.skel_follow = [
@@ -41,18 +44,33 @@ theorem skeleton_setIfEquals :
   decide
 
 theorem skeleton_addIfNew :
-    Gen.RefsFS.skel_addIfNew = [
+    ((Gen.RefsFS.skel_addIfNew = [
       "call:follow", "cmp:contents is not None", "return:False", "call:GitFile", "call:exists",
       "cmp:name in self.get_packed_refs()", "call:get_packed_refs", "call:abort", "return:False", "call:write",
-      "call:abort", "raise:", "return:True"] := by
+      "call:abort", "raise:", "return:True"] ∧
+        Gen.RefsFS.addIfNewChecksName = true) ∨
+     -- after the proposed repair
+     (Gen.RefsFS.skel_addIfNew = [
+      "call:follow", "cmp:contents is not None", "return:False", "call:GitFile", "call:exists",
+      "cmp:realname in self.get_packed_refs()", "call:get_packed_refs", "call:abort", "return:False",
+      "call:write", "call:abort", "raise:", "return:True"] ∧
+        Gen.RefsFS.addIfNewChecksName = false)) := by
   decide
 
 theorem skeleton_removeIfEquals :
-    Gen.RefsFS.skel_removeIfEquals = [
+    ((Gen.RefsFS.skel_removeIfEquals = [
       "call:GitFile", "cmp:old_ref is not None", "call:read_loose_ref", "cmp:orig_ref is None",
       "call:get_packed_refs", "cmp:orig_ref is None", "cmp:orig_ref != old_ref", "return:False",
       "call:lexists", "call:remove", "call:_remove_packed_ref", "call:abort", "cmp:parent == b'refs'",
       "return:True"] ∧
+        Gen.RefsFS.rmLooseBeforePacked = true) ∨
+     -- after the proposed repair
+     (Gen.RefsFS.skel_removeIfEquals = [
+      "call:GitFile", "cmp:old_ref is not None", "call:read_loose_ref", "cmp:orig_ref is None",
+      "call:get_packed_refs", "cmp:orig_ref is None", "cmp:orig_ref != old_ref", "return:False",
+      "call:_remove_packed_ref", "call:lexists", "call:remove", "call:abort", "cmp:parent == b'refs'",
+      "return:True"] ∧
+        Gen.RefsFS.rmLooseBeforePacked = false)) ∧
     Gen.RefsFS.skel_removePackedRef = [
       "cmp:name not in self.get_packed_refs()", "call:get_packed_refs", "return:", "call:GitFile",
       "call:_invalidate_packed_refs_cache", "call:copy", "call:get_packed_refs", "call:copy",
@@ -62,10 +80,17 @@ theorem skeleton_removeIfEquals :
   decide
 
 theorem skeleton_packRefs :
-    Gen.RefsFS.skel_addPackedRefs = [
+    ((Gen.RefsFS.skel_addPackedRefs = [
       "return:", "call:GitFile", "call:copy", "call:get_packed_refs", "cmp:ref == HEADREF",
       "raise:ValueError('cannot pack HEAD')", "call:remove", "cmp:target is not None", "call:pop",
       "call:write_packed_refs", "call:_invalidate_packed_refs_cache"] ∧
+        Gen.RefsFS.packRemovesLooseBeforeReplace = true) ∨
+     -- after the proposed repair
+     (Gen.RefsFS.skel_addPackedRefs = [
+      "return:", "call:GitFile", "call:copy", "call:get_packed_refs", "cmp:ref == HEADREF",
+      "raise:ValueError('cannot pack HEAD')", "cmp:target is not None", "call:pop", "call:write_packed_refs",
+      "call:_invalidate_packed_refs_cache", "call:remove"] ∧
+        Gen.RefsFS.packRemovesLooseBeforeReplace = false)) ∧
     Gen.RefsFS.skel_packRefs = [
       "call:allkeys", "cmp:ref == HEADREF", "assign:sha = self[ref]", "getitem:self[ref]",
       "call:add_packed_refs"] := by
@@ -85,10 +110,16 @@ theorem skeleton_lockFile :
   decide
 
 theorem skeleton_commit :
-    Gen.RefsFS.skel_worktreeCommit = [
+    ((Gen.RefsFS.skel_worktreeCommit = [
       "assign:old_head = self._repo.refs[ref]", "getitem:self._repo.refs[ref]",
       "assign:old_head = self._repo.refs[ref]", "getitem:self._repo.refs[ref]",
       "call:set_if_equals(ref, old_head, c.id)", "call:add_if_new(ref, c.id)"] ∧
+        Gen.RefsFS.worktreeCommitHeadReads = 2) ∨
+     -- after the proposed repair
+     (Gen.RefsFS.skel_worktreeCommit = [
+      "assign:old_head = self._repo.refs[ref]", "getitem:self._repo.refs[ref]",
+      "call:set_if_equals(ref, old_head, c.id)", "call:add_if_new(ref, c.id)"] ∧
+        Gen.RefsFS.worktreeCommitHeadReads = 1)) ∧
     Gen.RefsFS.skel_memoryDoCommit = [
       "assign:old_head = self.refs[ref]", "getitem:self.refs[ref]", "call:set_if_equals(ref, old_head, c.id)",
       "call:add_if_new(ref, c.id)"] ∧
@@ -97,7 +128,6 @@ theorem skeleton_commit :
     Gen.RefsFS.skel_dictAddIfNew = [
       "cmp:name in self._refs", "return:False", "return:True"] := by
   decide
-
 
 /-- the orders the flags may take that the model knows how to follow -/
 theorem coded_variant_supported :
@@ -263,19 +293,12 @@ example :
 
 /-! ## 2. Where the code as written violates the statement (negation witnesses on the full model)
 
-`Variant.pinned` is the order of steps in the pinned source (what `Variant.coded` evaluates to today, see
-`coded_variant_is_pinned_or_repaired`); the witnesses are stated for this literal so they stay facts about that
+`Variant.pinned` is the order of steps in the pinned source (what `Variant.coded` evaluates to at the pinned commit); the witnesses are stated for this literal so they stay facts about that
 order whatever the source becomes.  Each witness schedule is also in corpus/C08 and is replayed on the real
 `DiskRefsContainer` under the system-call scheduler on every run. -/
 
 def Variant.pinned : Variant :=
   { rmLooseFirst := true, packRemovesLooseFirst := true, addChecksName := true, commitReads := 2 }
-
-/-- the generated flags are the pinned order, or any mixture of pinned and repaired choices -/
-theorem coded_variant_is_pinned_or_repaired :
-    (Variant.coded.commitReads = Variant.pinned.commitReads ∨
-      Variant.coded.commitReads = Variant.repaired.commitReads) := by
-  decide
 
 def env0 : Env := { heads := [1, 2], order := [2, 1, 0] }
 
@@ -417,79 +440,6 @@ theorem add_if_new_symref_packed_counterexample : ¬ AddIfNewStatement Variant.p
 /-! ## 3. Concurrent commits -/
 
 open Proto
-
-/-- the successful swaps form a first-parent chain from the current head down to the initial head -/
-def ChainOK (init : Option Sha) : List (Sha × Option Sha) → Option Sha → Prop
-  | [], reg => reg = init
-  | (c, p) :: rest, reg => reg = some c ∧ ChainOK init rest p
-
-instance (init : Option Sha) : (l : List (Sha × Option Sha)) → (reg : Option Sha) → Decidable (ChainOK init l reg)
-  | [], reg => by unfold ChainOK; infer_instance
-  | (c, p) :: rest, reg => by
-    unfold ChainOK
-    have := instDecidableChainOK init rest p
-    infer_instance
-
-/-- invariant of the single-read protocol -/
-def PInv (init : Option Sha) (s : PState) : Prop :=
-  ChainOK init s.log s.reg ∧
-  ∀ (a : Nat) (st : PActor), s.actors[a]? = some st →
-    (∀ p, st.pc ≠ .read1 p) ∧ (∀ p o, st.pc = .ready p o → p = o) ∧
-    (∀ p, st.pc = .done true p → (st.cid, p) ∈ s.log)
-
-theorem pinv_step (init : Option Sha) (s s' : PState) (a : Nat) (e : PEvent) (h : PInv init s)
-    (hs : pstep 1 s a = some (s', e)) : PInv init s' := by
-  obtain ⟨hchain, hact⟩ := h
-  unfold pstep at hs
-  cases hst : s.actors[a]? with
-  | none => simp [hst] at hs
-  | some st =>
-    have halt : a < s.actors.length := (List.getElem?_eq_some_iff.mp hst).1
-    obtain ⟨h1, h2, h3⟩ := hact a st hst
-    simp only [hst] at hs
-    cases hpc : st.pc with
-    | start =>
-      simp only [hpc, Nat.le_refl, if_true, Option.some.injEq, Prod.mk.injEq] at hs
-      obtain ⟨rfl, _⟩ := hs
-      refine ⟨hchain, fun b stb hb => ?_⟩
-      by_cases hba : a = b
-      · subst hba
-        simp only [List.getElem?_set_self halt, Option.some.injEq] at hb
-        subst hb
-        exact ⟨fun p => by simp, fun p o hp => by simp at hp; rw [← hp.1, ← hp.2], fun p hp => by simp at hp⟩
-      · simp only [List.getElem?_set_ne hba] at hb
-        exact hact b stb hb
-    | read1 p => exact absurd hpc (h1 p)
-    | done ok p => simp [hpc] at hs
-    | ready parent old =>
-      have hpo := h2 parent old hpc
-      subst hpo
-      simp only [hpc] at hs
-      by_cases hreg : s.reg = parent
-      · simp only [hreg, if_true, Option.some.injEq, Prod.mk.injEq] at hs
-        obtain ⟨rfl, _⟩ := hs
-        refine ⟨⟨rfl, by rw [← hreg]; exact hchain⟩, fun b stb hb => ?_⟩
-        by_cases hba : a = b
-        · subst hba
-          simp only [List.getElem?_set_self halt, Option.some.injEq] at hb
-          subst hb
-          refine ⟨fun p => by simp, fun p o hp => by simp at hp, fun p hp => ?_⟩
-          simp only [PC.done.injEq, true_and] at hp
-          subst hp
-          exact List.mem_cons_self
-        · simp only [List.getElem?_set_ne hba] at hb
-          obtain ⟨g1, g2, g3⟩ := hact b stb hb
-          exact ⟨g1, g2, fun p hp => List.mem_cons_of_mem _ (g3 p hp)⟩
-      · simp only [hreg, if_false, Option.some.injEq, Prod.mk.injEq] at hs
-        obtain ⟨rfl, _⟩ := hs
-        refine ⟨hchain, fun b stb hb => ?_⟩
-        by_cases hba : a = b
-        · subst hba
-          simp only [List.getElem?_set_self halt, Option.some.injEq] at hb
-          subst hb
-          exact ⟨fun p => by simp, fun p o hp => by simp at hp, fun p hp => by simp at hp⟩
-        · simp only [List.getElem?_set_ne hba] at hb
-          exact hact b stb hb
 
 /-- **commit_not_lost** (single-read protocol: `MemoryRepo.do_commit`, and `WorkTree.commit` once it reuses its
 first read — over a linearizable compare-and-swap, which is what `cas_linearizable_loose` provides on disk).
